@@ -511,7 +511,7 @@ def solve_sat(
                 return Result(sol, len(sol), decisions, propagations, solutions=tuple(all_solutions))
             clause_idx = len(clauses) + len(learned)
             learned.append(blocking)
-            lbd_scores.append(n_vars)
+            lbd_scores.append(0)  # never discarded by reduce_db: dropping it would let the same model be found again
             if _VERIF and _verif_sink is not None:
                 _verif_sink(("learned", list(blocking), True))
 
